@@ -18,6 +18,9 @@ import (
 // Reference semantics on netip.Addr + big.Int in the 128-bit space where an IPv4
 // address is its IPv4-mapped form.
 
+// the nine values an octet of a contiguous netmask can have
+var c14MaskOctets = []byte{0, 128, 192, 224, 240, 248, 252, 254, 255}
+
 type c14Spec struct {
 	Text  string `json:"text"`
 	Class string `json:"class"`
@@ -307,19 +310,40 @@ func genC14Invalid(t *rapid.T) c14Spec {
 		}
 	case "noncontig-mask":
 		m := [4]byte{}
-		for {
+		isContig := func(m [4]byte) bool { ones, bits := net.IPMask(m[:]).Size(); return !(ones == 0 && bits == 0) }
+		switch rapid.IntRange(0, 3).Draw(t, "maskshape") {
+		case 0:
+			// every octet looks like a mask octet (ones, then zeros) - the four of them together do not
+			for i := range m {
+				m[i] = rapid.SampledFrom(c14MaskOctets).Draw(t, fmt.Sprintf("oct%d", i))
+			}
+		case 1:
+			// a contiguous mask with one bit flipped
+			v := uint32(0)
+			if p := rapid.IntRange(0, 32).Draw(t, "mp"); p > 0 {
+				v = ^uint32(0) << (32 - p)
+			}
+			v ^= 1 << rapid.IntRange(0, 31).Draw(t, "flip")
+			m = [4]byte{byte(v >> 24), byte(v >> 16), byte(v >> 8), byte(v)}
+		case 2:
+			// the complement of a mask (wildcard form), a mask with its bytes reversed
+			p := rapid.IntRange(1, 31).Draw(t, "mp")
+			v := ^uint32(0) << (32 - p)
+			if rapid.Bool().Draw(t, "wild") {
+				v = ^v
+				m = [4]byte{byte(v >> 24), byte(v >> 16), byte(v >> 8), byte(v)}
+			} else {
+				m = [4]byte{byte(v), byte(v >> 8), byte(v >> 16), byte(v >> 24)}
+			}
+		default:
 			v := rapid.Uint32().Draw(t, "mask")
 			m = [4]byte{byte(v >> 24), byte(v >> 16), byte(v >> 8), byte(v)}
-			if ones, bits := net.IPMask(m[:]).Size(); ones == 0 && bits == 0 {
-				break
+		}
+		if isContig(m) {
+			m[1], m[3] = m[1]^1, m[3]|1 // force a hole
+			if isContig(m) {
+				m = [4]byte{255, 0, 255, 0}
 			}
-			v = v ^ 0x00010000 | 1 // force a hole
-			m = [4]byte{byte(v >> 24), byte(v >> 16), byte(v >> 8), byte(v)}
-			if ones, bits := net.IPMask(m[:]).Size(); ones == 0 && bits == 0 {
-				break
-			}
-			m = [4]byte{255, 0, 255, 0}
-			break
 		}
 		s.Text = fmt.Sprintf("%s/%d.%d.%d.%d", a4, m[0], m[1], m[2], m[3])
 	case "prefix-out-of-range":
@@ -558,6 +582,7 @@ func TestC14Random(t *testing.T) {
 func TestC14Prefixes(t *testing.T) {
 	st := hx.NewStats("C14", "prefixes")
 	st.MarkExhaustive("every prefix length 0..32 (CIDR and netmask form) and 0..128, aligned and host-bits-set base, borders +-2")
+	st.MarkExhaustive("every IPv4 netmask whose four octets are each ones-then-zeros (9^4) and every contiguous mask with one bit flipped: refused unless contiguous")
 	cases := func(yield func(c14Case) bool) {
 		bases4 := []string{"192.0.2.77", "10.255.255.255", "0.0.0.0", "255.255.255.255", "127.0.0.1"}
 		bases6 := []string{"2001:db8::1:2:3", "2001:db8:ffff:ffff:ffff:ffff:ffff:ffff", "fd00::", "2001:db8::"}
@@ -595,6 +620,39 @@ func TestC14Prefixes(t *testing.T) {
 					if !yield(mk(pp.Addr(), p, class)) {
 						return
 					}
+				}
+			}
+		}
+		// every IPv4 mask made of octets that each look like a mask octet (9^4), and every contiguous mask with one bit
+		// flipped: unless the whole is contiguous (those were enumerated above) the specification must be refused
+		seenMask := map[[4]byte]bool{}
+		bad := func(m [4]byte) (c14Case, bool) {
+			if ones, bits := net.IPMask(m[:]).Size(); !(ones == 0 && bits == 0) || seenMask[m] {
+				return c14Case{}, false
+			}
+			seenMask[m] = true
+			return c14Case{Spec: c14Spec{Class: "noncontig-mask", Fam: 4, Text: fmt.Sprintf("192.0.2.77/%d.%d.%d.%d", m[0], m[1], m[2], m[3])}}, true
+		}
+		for _, o0 := range c14MaskOctets {
+			for _, o1 := range c14MaskOctets {
+				for _, o2 := range c14MaskOctets {
+					for _, o3 := range c14MaskOctets {
+						if c, ok := bad([4]byte{o0, o1, o2, o3}); ok && !yield(c) {
+							return
+						}
+					}
+				}
+			}
+		}
+		for p := 0; p <= 32; p++ {
+			for f := 0; f < 32; f++ {
+				v := uint32(0)
+				if p > 0 {
+					v = ^uint32(0) << (32 - p)
+				}
+				v ^= 1 << f
+				if c, ok := bad([4]byte{byte(v >> 24), byte(v >> 16), byte(v >> 8), byte(v)}); ok && !yield(c) {
+					return
 				}
 			}
 		}
